@@ -16,7 +16,7 @@ import (
 func init() {
 	register(&explore.Prop{
 		ID: "C13", Level: levelMC, Explorer: "E2 sequence explorer, state mode (BFS over the real private state of the reused objects)",
-		Rule: "slots = one reusable PostingsList and one reusable PostingsIterator, plus one long-lived Dictionary per (segment, field); stored-field visits alternating between two same-shaped segments and a third (every sequence of <=4 visits); a doc-value reader kept across every order of <=5 visits over {0,5,1024,last} of four 1030/2049-document segments, compared with a fresh reader per visit; operation = lookup(segment in {built multi-chunk with locations, merged with 1-hit and general terms, empty batch}, field in {with terms, known without terms, unknown}, term in {general, single-doc (1-hit in the merged segment), absent}, except in {nil, first doc, all docs}, flags in {000,100,111}, consume in {0,1,all,all+1 postings}, prealloc PostingsList in {nil, slot}, prealloc PostingsIterator in {nil, slot}), plus reiterate: the list held in the slot since an earlier lookup is asked again for Count and an iterator (with or without the slot iterator) without a new lookup; BFS over states = (VerifStatePL(slot), VerifStateIter(slot)) to a fixpoint: every reuse history of any length over this alphabet; oracle: the complete result of each lookup equals the same lookup with fresh objects and the reference model; " +
+		Rule: "slots = one reusable PostingsList and one reusable PostingsIterator, plus one long-lived Dictionary per (segment, field); LARGE-REUSE (a 2100-document adaptive segment with terms of cardinality 2100/1050/700/5 and a small one: every sequence of <=3 lookups with the list and the iterator reused); stored-field visits alternating between two same-shaped segments and a third (every sequence of <=4 visits); a doc-value reader kept across every order of <=5 visits over {0,5,1024,last} of four 1030/2049-document segments, compared with a fresh reader per visit; operation = lookup(segment in {built multi-chunk with locations, merged with 1-hit and general terms, empty batch}, field in {with terms, known without terms, unknown}, term in {general, single-doc (1-hit in the merged segment), absent}, except in {nil, first doc, all docs}, flags in {000,100,111}, consume in {0,1,all,all+1 postings}, prealloc PostingsList in {nil, slot}, prealloc PostingsIterator in {nil, slot}), plus reiterate: the list held in the slot since an earlier lookup is asked again for Count and an iterator (with or without the slot iterator) without a new lookup; BFS over states = (VerifStatePL(slot), VerifStateIter(slot)) to a fixpoint: every reuse history of any length over this alphabet; oracle: the complete result of each lookup equals the same lookup with fresh objects and the reference model; " +
 			"distinct/non-trivial = transitions whose lookup reuses an object last used for a different (segment, field, term, except, flags)",
 		Assumptions: append(append([]string{}, commonAssumptions...), "vellum.Reader state inside a long-lived Dictionary is not part of the state key (trusted to be result-neutral)"),
 		Budget:      qBudget, Run: runC13,
@@ -515,6 +515,128 @@ func dvReuseSparse(c *explore.Ctx) {
 	}
 }
 
+// largeReuse: LARGE-REUSE - one adaptive-mode segment of 2100 documents with terms of cardinality
+// 2100, 1050, 700 and 5 (different 1024-buckets, hence different chunk sizes) and a second small
+// segment: every sequence of <= 3 lookups in which the one PostingsList and the one PostingsIterator
+// are reused, walked with and without locations, each compared with fresh objects.
+func largeReuse(c *explore.Ctx) {
+	scope := "LARGE-REUSE"
+	if !c.MineIdx(scope, 0) {
+		return
+	}
+	n := 2100
+	batch := make([]model.Doc, n)
+	for i := range batch {
+		ts := []model.Term{{T: "all", Freq: 1 + i%2, Locs: []model.Loc{{P: 1, S: i % 200, E: i%200 + 1}}}}
+		if i%2 == 0 {
+			ts = append(ts, model.Term{T: "half", Freq: 1})
+		}
+		if i%3 == 0 {
+			ts = append(ts, model.Term{T: "third", Freq: 2, Locs: []model.Loc{{P: 2, S: 125, E: 130}}})
+		}
+		if i%500 == 499 {
+			ts = append(ts, model.Term{T: "few", Freq: 1})
+		}
+		batch[i] = model.Doc{{N: "a", Len: 3, Terms: ts}}
+	}
+	big, err := build(batch, 1025)
+	if err != nil {
+		c.Violate(scope, 0, sigOf("C13", "large-build", "error: "+err.Error()), err.Error(), "")
+		return
+	}
+	small, err := build([]model.Doc{gen.MixDoc(2, "q", 0), gen.MixDoc(2, "q", 1)}, 2)
+	if err != nil {
+		c.Violate(scope, 0, sigOf("C13", "large-build", "error: "+err.Error()), err.Error(), "")
+		return
+	}
+	type lk struct {
+		seg  segment.Segment
+		name string
+		term string
+	}
+	lks := []lk{{big, "big", "all"}, {big, "big", "half"}, {big, "big", "third"}, {big, "big", "few"}, {small, "small", "x"}, {big, "big", "absent"}}
+	walk := func(pl segment.PostingsList, locs bool, pre segment.PostingsIterator) (string, segment.PostingsIterator) {
+		out := ""
+		var it segment.PostingsIterator
+		msg := explore.Guard(func() {
+			var err error
+			it, err = pl.Iterator(true, true, locs, pre)
+			if err != nil {
+				out = "ERR " + err.Error()
+				return
+			}
+			h := uint64(14695981039346656037)
+			cnt := 0
+			for {
+				p, err := it.Next()
+				if err != nil {
+					out = fmt.Sprintf("ERR after %d: %v", cnt, err)
+					return
+				}
+				if p == nil {
+					break
+				}
+				cnt++
+				h = (h ^ explore.Hash(fmt.Sprint(obs.CopyPosting(p)))) * 1099511628211
+			}
+			out = fmt.Sprintf("count=%d/%d hash=%016x", pl.Count(), cnt, h)
+		})
+		if msg != "" {
+			out = msg
+		}
+		return out, it
+	}
+	fresh := map[string]string{}
+	for li, l := range lks {
+		for _, locs := range []bool{false, true} {
+			d, _ := l.seg.Dictionary("a")
+			pl, err := d.PostingsList([]byte(l.term), nil, nil)
+			if err != nil {
+				c.Violate(scope, 0, sigOf("C13", "large-fresh", "error: "+err.Error()), err.Error(), "")
+				return
+			}
+			fresh[fmt.Sprint(li, locs)], _ = walk(pl, locs, nil)
+		}
+	}
+	for n := 2; n <= 3; n++ {
+		ok := gen.Pow(len(lks)*2, n, func(v []int) bool {
+			c.Eval()
+			c.R.Distinct++
+			c.Nontrivial()
+			c.R.Transitions += int64(n)
+			var pl segment.PostingsList
+			var pi segment.PostingsIterator
+			for i, x := range v {
+				l, locs := lks[x/2], x%2 == 1
+				d, err := l.seg.Dictionary("a")
+				if err != nil {
+					c.Violate(scope, 0, sigOf("C13", "large-reuse", "error: "+err.Error()), err.Error(), "")
+					return false
+				}
+				var npl segment.PostingsList
+				msg := explore.Guard(func() { npl, err = d.PostingsList([]byte(l.term), nil, pl) })
+				if msg != "" || err != nil {
+					c.Violate(scope, 0, sigOf("C13", "large-reuse", "error: "+errText(msg, err)), errText(msg, err), fmt.Sprint(v))
+					return false
+				}
+				pl = npl
+				got, npi := walk(pl, locs, pi)
+				if npi != nil {
+					pi = npi
+				}
+				if want := fresh[fmt.Sprint(x/2, locs)]; got != want {
+					c.Violate(scope, 0, "C13/large-reuse/wrong", fmt.Sprintf("lookup #%d of sequence %v (%s:%q locations=%v) with the reused list and iterator: %s; fresh objects: %s", i, v, l.name, l.term, locs, got, want), "LARGE-REUSE 2100-document adaptive segment")
+					return false
+				}
+			}
+			return true
+		})
+		if !ok {
+			return
+		}
+	}
+}
+
 func dvReuse(c *explore.Ctx) {
 	dvReuseSparse(c)
 	type cs struct{ n, p int }
@@ -607,9 +729,10 @@ func dvReuse(c *explore.Ctx) {
 }
 
 func runC13(c *explore.Ctx) {
-	if !c.Replay || c.ReplayScope == "DV-REUSE" || c.ReplayScope == "STORED-ACROSS" {
+	if !c.Replay || c.ReplayScope == "DV-REUSE" || c.ReplayScope == "STORED-ACROSS" || c.ReplayScope == "LARGE-REUSE" {
 		dvReuse(c)
 		storedAcross(c)
+		largeReuse(c)
 		if c.Replay {
 			return
 		}
